@@ -16,6 +16,13 @@ mod git_commit_parser;
 mod pos_conv;
 // --- harness ---
 mod common;
+mod c07;
+mod c04;
+mod c05;
+mod c11;
+mod lg;
+mod lexdirect; use harper_core::TokenKind; // (one line on purpose) `crate::TokenKind` is what the lexer sources compiled in by lexdirect.rs refer to
+mod c15;
 mod c01_pattern;
 mod c18;
 mod c14;
@@ -88,6 +95,11 @@ fn main() {
         "C14" => c14::run(&ctx),
         "C18" => c18::run(&ctx),
         "C01P" => c01_pattern::run(&ctx),
+        "C15" => c15::run(&ctx),
+        "C11" => c11::run(&ctx),
+        "C05" => c05::run(&ctx),
+        "C04" => c04::run(&ctx),
+        "C07" => c07::run(&ctx),
         _ => {
             eprintln!("unknown property {}", prop);
             std::process::exit(2);
